@@ -27,7 +27,12 @@ use vcommon::ctx::{hash_str, CaseInfo, CaseResult, Ctx, Failure};
 use vcommon::tape::Tape;
 
 // namespaced configuration: Cargo.toml metadata + locales/<locale>/<ns>.json
-leptos_i18n::load_locales!();
+// (the macro reports unused plural forms of ja / de-CH through `deprecated` warnings: expected here)
+#[allow(deprecated)]
+mod generated {
+    leptos_i18n::load_locales!();
+}
+use generated::i18n;
 
 // flat configuration (one translation unit per locale, `id` = null)
 pub mod flat {
@@ -168,6 +173,26 @@ const PIECES: &[&str] = &[
     "\u{1f}",
     "null",
     "\"]}];alert(1);[{\"",
+    // NUL immediately followed by digits (a `\\0` escape followed by a digit is a legacy octal escape)
+    "\u{0}12",
+    "\u{0}7",
+    "\u{0}0",
+    "\u{0}9",
+    "\u{0}377",
+    // a backslash followed by escape-looking text: all of it is literal text
+    "\\u",
+    "\\x",
+    "\\x4",
+    "\\0",
+    "\\12",
+    "\\8",
+    "\\u2028",
+    "\\u{41}",
+    "\\'",
+    "\\\n",
+    "0",
+    "7",
+    "12",
 ];
 
 fn gen_string(t: &mut Tape) -> String {
@@ -414,7 +439,27 @@ impl<'a> P<'a> {
                         'b' => units.push(0x08),
                         'f' => units.push(0x0c),
                         'v' => units.push(0x0b),
-                        '0' if !self.peek().map(|c| c.is_ascii_digit()).unwrap_or(false) => units.push(0),
+                        // classic (non strict) script semantics for backslash-digit:
+                        // legacy octal escape, up to 3 octal digits with a value <= 0o377
+                        // (`\0` alone is NUL, `"\012"` is U+000A, `"\07"` is U+0007, `"\08"` is NUL then '8')
+                        d @ '0'..='7' => {
+                            let max_digits = if d <= '3' { 3 } else { 2 };
+                            let mut v = d.to_digit(8).unwrap();
+                            let mut n = 1;
+                            while n < max_digits {
+                                match self.peek().and_then(|c| c.to_digit(8)) {
+                                    Some(x) => {
+                                        v = v * 8 + x;
+                                        n += 1;
+                                        self.i += 1;
+                                    }
+                                    None => break,
+                                }
+                            }
+                            units.push(v as u16);
+                        }
+                        // `\8` and `\9` are the digit itself
+                        d @ ('8' | '9') => push_char(&mut units, d),
                         'x' => {
                             let v = self.hex(2)?;
                             units.push(v as u16);
@@ -455,7 +500,6 @@ impl<'a> P<'a> {
                                 self.i += 1;
                             }
                         }
-                        d if d.is_ascii_digit() => return Err("octal / \\8 \\9 escapes are not accepted".into()),
                         other => push_char(&mut units, other), // identity escape (\" \' \\ \/ ...)
                     }
                 }
@@ -755,6 +799,291 @@ impl any_spawner::CustomExecutor for DropExecutor {
     fn poll_local(&self) {}
 }
 
+// ------------------------------------------------------------------------------------------------
+// part B, engine `real-units`: the real generated translation units and accessors
+//
+// The accessors below are the real macros over the `load_locales!()` project of this crate
+// (locales/<locale>/<ns>.json: 4 locales x 3 namespaces). Under dynamic_load + ssr every generated
+// accessor reaches `<unit>::get_translations()`, which registers the unit in the request's
+// `RegisterCtx`. A generated use history touches (locale, accessor) pairs inside the children of
+// `provide_i18n_context_component`; the emitted script must list exactly the touched units, each with
+// the table the server function hands out (`I18nKeys::__i18n_request_translations__`).
+
+mod real {
+    use super::i18n::*;
+    use super::NsLocale;
+    use leptos::prelude::*;
+
+    /// poll a future that is ready immediately (server side accessors are `async` only for API parity)
+    fn block_on<F: std::future::Future>(fut: F) -> F::Output {
+        struct Noop;
+        impl std::task::Wake for Noop {
+            fn wake(self: std::sync::Arc<Self>) {}
+        }
+        let waker = std::task::Waker::from(std::sync::Arc::new(Noop));
+        let mut cx = std::task::Context::from_waker(&waker);
+        let mut fut = std::pin::pin!(fut);
+        for _ in 0..1000 {
+            if let std::task::Poll::Ready(v) = fut.as_mut().poll(&mut cx) {
+                return v;
+            }
+        }
+        panic!("harness: accessor future never became ready")
+    }
+
+    pub enum Touched {
+        /// string flavour: evaluated on the spot
+        Text(String),
+        /// view flavour: rendered with the children of the provider
+        View(AnyView),
+    }
+
+    pub struct Accessor {
+        pub label: &'static str,
+        /// namespace index (0 = ns1 ...)
+        pub ns: usize,
+        /// which locale's unit the access registers: the given one, or always the default locale's
+        /// (key explicitly `null` in the other locales, or `t!` reading the context's locale)
+        pub unit_locale: UnitLocale,
+        pub run: fn(NsLocale) -> Touched,
+    }
+
+    #[derive(Clone, Copy, PartialEq)]
+    pub enum UnitLocale {
+        Given,
+        /// the default locale for every locale but the given one when it *is* the default
+        DefaultExceptFor,
+        /// the locale of the context (the default locale: no cookie, no header)
+        Context,
+    }
+
+    pub fn accessors() -> Vec<Accessor> {
+        use UnitLocale::*;
+        let v = |label, ns, unit_locale, run| Accessor { label, ns, unit_locale, run };
+        vec![
+            // ---- ns1
+            v("td_string!(l, ns1.plain)", 0, Given, |l| Touched::Text(block_on(td_string!(l, ns1.plain)).to_string())),
+            v("td!(l, ns1.plain)", 0, Given, |l| Touched::View(td!(l, ns1.plain).into_any())),
+            v("td_string!(l, ns1.script)", 0, Given, |l| Touched::Text(block_on(td_string!(l, ns1.script)).to_string())),
+            v("td!(l, ns1.script)", 0, Given, |l| Touched::View(td!(l, ns1.script).into_any())),
+            v("td!(l, ns1.interp, name, <b>)", 0, Given, |l| {
+                Touched::View(td!(l, ns1.interp, name = "Ann", <b> = |c: leptos::children::ChildrenFn| view! { <b>{c()}</b> }).into_any())
+            }),
+            v("td!(l, ns1.sub.inner)", 0, Given, |l| Touched::View(td!(l, ns1.sub.inner).into_any())),
+            v("td_string!(l, ns1.sub.deep.leaf)", 0, Given, |l| Touched::Text(block_on(td_string!(l, ns1.sub.deep.leaf)).to_string())),
+            v("td!(l, ns1.sub.deep.leaf_var, x)", 0, Given, |l| Touched::View(td!(l, ns1.sub.deep.leaf_var, x = "X").into_any())),
+            v("td_string!(l, ns1.sub.deep.leaf_var, x)", 0, Given, |l| {
+                Touched::Text(block_on(td_string!(l, ns1.sub.deep.leaf_var, x = "X")).to_string())
+            }),
+            v("td_string!(l, ns1.items, count = 1)", 0, Given, |l| Touched::Text(block_on(td_string!(l, ns1.items, count = 1)).to_string())),
+            v("td!(l, ns1.items, count = || 3)", 0, Given, |l| Touched::View(td!(l, ns1.items, count = || 3).into_any())),
+            v("td!(l, ns1.rng, count = || 3, <i>)", 0, Given, |l| {
+                Touched::View(td!(l, ns1.rng, count = || 3, <i> = |c: leptos::children::ChildrenFn| view! { <i>{c()}</i> }).into_any())
+            }),
+            // ---- ns2
+            v("td!(l, ns2.title)", 1, Given, |l| Touched::View(td!(l, ns2.title).into_any())),
+            v("td_string!(l, ns2.title)", 1, Given, |l| Touched::Text(block_on(td_string!(l, ns2.title)).to_string())),
+            v("td_string!(l, ns2.same)", 1, Given, |l| Touched::Text(block_on(td_string!(l, ns2.same)).to_string())),
+            v("td!(l, ns2.greet, who)", 1, Given, |l| Touched::View(td!(l, ns2.greet, who = "you").into_any())),
+            v("td_string!(l, ns2.group.a)", 1, Given, |l| Touched::Text(block_on(td_string!(l, ns2.group.a)).to_string())),
+            v("td!(l, ns2.group.b, v, <em>)", 1, Given, |l| {
+                Touched::View(td!(l, ns2.group.b, v = "V", <em> = |c: leptos::children::ChildrenFn| view! { <em>{c()}</em> }).into_any())
+            }),
+            v("td_string!(l, ns2.hazard)", 1, Given, |l| Touched::Text(block_on(td_string!(l, ns2.hazard)).to_string())),
+            v("td!(l, ns2.hazard)", 1, Given, |l| Touched::View(td!(l, ns2.hazard).into_any())),
+            v("t!(use_i18n(), ns2.title)", 1, Context, |_| Touched::View(t!(use_i18n(), ns2.title).into_any())),
+            // ---- ns3
+            v("td_string!(l, ns3.fkey)", 2, Given, |l| Touched::Text(block_on(td_string!(l, ns3.fkey)).to_string())),
+            v("td!(l, ns3.fkey)", 2, Given, |l| Touched::View(td!(l, ns3.fkey).into_any())),
+            v("td!(l, ns3.only_en)", 2, DefaultExceptFor, |l| Touched::View(td!(l, ns3.only_en).into_any())),
+            v("td_string!(l, ns3.only_en)", 2, DefaultExceptFor, |l| Touched::Text(block_on(td_string!(l, ns3.only_en)).to_string())),
+            v("td!(l, ns3.emoji)", 2, Given, |l| Touched::View(td!(l, ns3.emoji).into_any())),
+            v("td_string!(l, ns3.ord, count = 2)", 2, Given, |l| Touched::Text(block_on(td_string!(l, ns3.ord, count = 2)).to_string())),
+            v("t!(use_i18n(), ns3.emoji)", 2, Context, |_| Touched::View(t!(use_i18n(), ns3.emoji).into_any())),
+        ]
+    }
+
+    /// the table the generated server function hands out for a unit
+    pub fn server_table(l: NsLocale, ns: usize) -> &'static [&'static str] {
+        let id = [I18nTranslationUnitsId::ns1, I18nTranslationUnitsId::ns2, I18nTranslationUnitsId::ns3][ns];
+        I18nKeys::__i18n_request_translations__(l, id)
+    }
+}
+
+const NS_LOCALE_VALUES: [NsLocale; 4] = [NsLocale::en, NsLocale::fr, NsLocale::de_CH, NsLocale::ja];
+
+struct RealCtx {
+    accessors: Vec<real::Accessor>,
+    /// [locale][ns] -> server table, computed once outside of any provider
+    tables: Vec<Vec<Vec<String>>>,
+}
+
+fn real_ctx() -> RealCtx {
+    let tables = NS_LOCALE_VALUES
+        .iter()
+        .map(|l| (0..3).map(|ns| real::server_table(*l, ns).iter().map(|s| s.to_string()).collect()).collect())
+        .collect();
+    RealCtx { accessors: real::accessors(), tables }
+}
+
+fn real_case(t: &mut Tape, rc: &RealCtx) -> CaseResult {
+    let len = t.weighted(&[1, 3, 4, 4, 4, 3, 3, 2, 2, 1, 1, 1, 1]); // 0..=12
+    let mut history: Vec<(usize, usize)> = vec![];
+    for _ in 0..len {
+        // half of the touches revisit an earlier locale or accessor (units touched twice)
+        let (l, a) = if !history.is_empty() && t.coin() {
+            let (pl, pa) = history[t.pick(history.len())];
+            match t.pick(3) {
+                0 => (pl, pa),
+                1 => (pl, t.pick(rc.accessors.len())),
+                _ => (t.pick(4), pa),
+            }
+        } else {
+            (t.pick(4), t.pick(rc.accessors.len()))
+        };
+        history.push((l, a));
+    }
+    // model: which unit each touch registers
+    let unit_of = |l: usize, a: usize| -> (usize, usize) {
+        let acc = &rc.accessors[a];
+        let ul = match acc.unit_locale {
+            real::UnitLocale::Given => l,
+            real::UnitLocale::DefaultExceptFor | real::UnitLocale::Context => 0,
+        };
+        (ul, acc.ns)
+    };
+    let mut expected = Decoded::new();
+    let mut touches: BTreeMap<(usize, usize), usize> = BTreeMap::new();
+    for (l, a) in &history {
+        let (ul, ns) = unit_of(*l, *a);
+        *touches.entry((ul, ns)).or_insert(0) += 1;
+        expected.insert((NS_LOCALES[ul].to_string(), Some(NS_NAMES[ns].to_string())), rc.tables[ul][ns].clone());
+    }
+    let cj = json!({
+        "history": history.iter().map(|(l, a)| json!([NS_LOCALES[*l], rc.accessors[*a].label])).collect::<Vec<_>>(),
+        "expected_units": expected.keys().map(|(l, n)| json!([l, n])).collect::<Vec<_>>(),
+    });
+
+    // render: the accessors run inside the children of the real provider
+    let hist = history.clone();
+    let runs: Vec<fn(NsLocale) -> real::Touched> = rc.accessors.iter().map(|a| a.run).collect();
+    let owner = Owner::new();
+    let html = owner.with(|| {
+        let children = move || {
+            let mut views: Vec<AnyView> = vec![];
+            for (l, a) in &hist {
+                match (runs[*a])(NS_LOCALE_VALUES[*l]) {
+                    real::Touched::Text(s) => views.push(s.into_any()),
+                    real::Touched::View(v) => views.push(v),
+                }
+            }
+            views
+        };
+        leptos_i18n::context::provide_i18n_context_component::<NsLocale, _>(
+            Some(false),
+            Some(false),
+            Some(false),
+            None,
+            None,
+            Some(quiet_header_getter()),
+            TypedChildren::to_children(children),
+        )
+        .to_html()
+    });
+    drop(owner);
+    let Some(text) = script_text(&html) else {
+        return Err(Failure { signature: "real-units:no-script-element".into(), detail: json!({"case": cj, "html": html}) });
+    };
+    let mut observations = 1u64;
+    let lower = text.to_ascii_lowercase();
+    if lower.contains("</script") || text.contains("<!--") {
+        return Err(Failure {
+            signature: "real-units:script-breakout".into(),
+            detail: json!({"case": cj, "script_text": text, "why": "the script element's text contains `</script` or `<!--`"}),
+        });
+    }
+    observations += 1;
+    let parsed = match parse_script(text) {
+        Ok(v) => v,
+        Err(e) => {
+            return Err(Failure {
+                signature: "real-units:not-parseable".into(),
+                detail: json!({"case": cj, "parse_error": e, "script_text": text}),
+            })
+        }
+    };
+    observations += 1;
+    let actual = match decode(&parsed) {
+        Ok(a) => a,
+        Err(e) => {
+            return Err(Failure {
+                signature: "real-units:unit-set-mismatch".into(),
+                detail: json!({"case": cj, "shape_error": e, "script_text": text}),
+            })
+        }
+    };
+    let exp_keys: Vec<_> = expected.keys().cloned().collect();
+    let act_keys: Vec<_> = actual.keys().cloned().collect();
+    if exp_keys != act_keys {
+        return Err(Failure {
+            signature: "real-units:unit-set-mismatch".into(),
+            detail: json!({
+                "case": cj,
+                "why": "the embedded script must list exactly the (locale, namespace) units the render touched",
+                "expected_units": exp_keys.iter().map(|(l, n)| json!([l, n])).collect::<Vec<_>>(),
+                "actual_units": act_keys.iter().map(|(l, n)| json!([l, n])).collect::<Vec<_>>(),
+            }),
+        });
+    }
+    for (k, v) in &expected {
+        observations += 1;
+        if actual.get(k) != Some(v) {
+            return Err(Failure {
+                signature: "real-units:values-mismatch".into(),
+                detail: json!({
+                    "case": cj, "unit": [k.0, k.1],
+                    "why": "values must equal the table of I18nKeys::__i18n_request_translations__(locale, namespace), in order",
+                    "expected_values": v, "actual_values": actual.get(k),
+                }),
+            });
+        }
+    }
+    // classification
+    let twice = touches.values().any(|n| *n >= 2);
+    let strict_subset = !expected.is_empty() && expected.len() < 12;
+    let mut classes: Vec<String> = vec![];
+    classes.push(match expected.len() {
+        0 => "real-units:no-unit-touched".to_string(),
+        1..=3 => "real-units:1-3-units-touched".to_string(),
+        4..=7 => "real-units:4-7-units-touched".to_string(),
+        _ => "real-units:8-12-units-touched".to_string(),
+    });
+    if twice {
+        classes.push("real-units:unit-touched-twice".into());
+    }
+    for (l, a) in &history {
+        let acc = &rc.accessors[*a];
+        classes.push(format!("real-units:ns{}", acc.ns + 1));
+        classes.push(
+            if acc.label.starts_with("td_string!") { "real-units:string-flavour" } else if acc.label.starts_with("t!") { "real-units:t!-context-locale" } else { "real-units:view-flavour" }
+                .to_string(),
+        );
+        if acc.unit_locale == real::UnitLocale::DefaultExceptFor && *l != 0 {
+            classes.push("real-units:key-defaulted-to-default-locale".into());
+        }
+    }
+    classes.sort();
+    classes.dedup();
+    let txt = serde_json::to_string(&cj).unwrap_or_default();
+    Ok(CaseInfo {
+        hash: hash_str(&format!("real-units:{txt}")),
+        nontrivial: strict_subset && twice,
+        classes,
+        sample: Some(cj),
+        observations,
+    })
+}
+
 const ENGINES: [(&str, Clause); 3] = [
     ("l0dyn-breakout", Clause::Breakout),
     ("l0dyn-parse", Clause::Parse),
@@ -773,6 +1102,10 @@ pub fn run(mut ctx: Ctx) -> ! {
             Some((name, clause)) => {
                 ctx.replay_tape(name, &path, |t| check_case(t, *clause));
             }
+            None if engine == "real-units" => {
+                let rc = real_ctx();
+                ctx.replay_tape("real-units", &path, |t| real_case(t, &rc));
+            }
             None => ctx.harness_error(format!("replay file names unknown engine {engine:?}")),
         }
     } else {
@@ -780,6 +1113,10 @@ pub fn run(mut ctx: Ctx) -> ! {
         for (name, clause) in ENGINES {
             ctx.run_tapes(name, cases, 400, |t| check_case(t, clause));
         }
+        // part B: the real generated units and accessors
+        let rc = real_ctx();
+        let cases = ctx.tier.scale(20_000, 400_000);
+        ctx.run_tapes("real-units", cases, 60, |t| real_case(t, &rc));
     }
     ctx.finish(
         "generated cases: configuration (namespaced load_locales! enum: 1-3 namespaces x 1-4 locales, or flat declare_locales! \
@@ -791,7 +1128,15 @@ pub fn run(mut ctx: Ctx) -> ! {
          `window.__LEPTOS_I18N_TRANSLATIONS = [..];` with a JS-literal parser; decoded == exactly the used units with their strings \
          in order). non-trivial = a request whose used set is a non-empty strict subset of the existing units and at least one \
          string of a used unit contains a must-escape character (\" \\ control <0x20, `</script`, `<!--`); distinct = hash of the \
-         serialised case",
+         serialised case. The alphabet also holds NUL followed by digits and backslash followed by u/x/n/digits/quote (classic-script \
+         legacy octal semantics are modelled by the parser). Engine real-units (part B): the real generated units of this crate's \
+         load_locales!() project (4 locales x 3 namespaces; keys with subkeys, interpolation, components, plurals, a range, a foreign \
+         key, a key defaulted through null, strings with quotes / backslashes / < & / newline / NUL+digits / </script>) touched \
+         through 28 accessors over the real macros (td_string!, td!, t!; string and view flavours) by a generated use history of \
+         0-12 (locale, accessor) touches inside the children of provide_i18n_context_component; the emitted script must not break \
+         out, must parse, and must decode to exactly the touched (locale, namespace) units, each with the values of \
+         I18nKeys::__i18n_request_translations__(locale, namespace) in order; there non-trivial = a non-empty strict subset of the 12 \
+         units is touched and at least one unit is touched twice",
         &[
             "only the server half (SSR emission) is observed; the hydrate-side re-emission (init_translations) is wasm-only",
             "the real generated get_translations() path is covered by the generated-crate tier (C17 part B); here units register through the same public TranslationUnit::register()",
@@ -823,6 +1168,12 @@ fn self_test(ctx: &mut Ctx) {
     let want = "a\"b\\c\n</script>\u{2028}\u{1F600}A\u{1F600}\u{1F600}".to_string();
     if d.get(&("en".to_string(), Some("ns1".to_string()))) != Some(&vec![want]) {
         ctx.harness_error(format!("self-test: escapes decoded wrongly: {d:?}"));
+    }
+    let octal = "window.__LEPTOS_I18N_TRANSLATIONS = [{\"locale\":\"en\",\"id\":null,\"values\":[\"a\\0b\\012c\\07d\\08e\\9f\\377g\\400h\\u00001\"]}];";
+    let d = parse_script(octal).and_then(|v| decode(&v)).unwrap_or_default();
+    let want = "a\u{0}b\nc\u{7}d\u{0}8e9f\u{ff}g\u{20}0h\u{0}1".to_string();
+    if d.get(&("en".to_string(), None)) != Some(&vec![want]) {
+        ctx.harness_error(format!("self-test: legacy octal escapes decoded wrongly: {d:?}"));
     }
     let bad = [
         "window.__LEPTOS_I18N_TRANSLATIONS = [{\"values\":[\"\"\"]}];",
